@@ -178,7 +178,9 @@ def run_cam(case, clock, labels):
         return r
 
     def in_active(t):
-        return any(a <= t + 1e-9 and (b is None or t < b - 1e-9) for a, b in active_iv)
+        # virtual times are floats around 1.7e9 s (resolution 2.4e-7 s): a CAM whose timer is due at the very instant of the stop call
+        # is emitted before the stop takes effect
+        return any(a <= t + 1e-6 and (b is None or t <= b + 1e-6) for a, b in active_iv)
 
     for (t, msg, req) in cams:
         if not in_active(t):
